@@ -371,6 +371,10 @@ class OpsMixin:
         self.unmodelled["binop:" + op] += 1
         return self.top_int(dest_ty)
 
+    def primary_syms(self):
+        """symbols that stand for a whole wire/argument integer (their zero test stays a linear atom)"""
+        return self.ranges
+
     def bit_op(self, op, x, y):
         if op == "BitAnd":
             if x == 0 or y == 0:
@@ -444,6 +448,15 @@ class OpsMixin:
                     nz = [bt for bt in bits if bt != 0]
                     if len(nz) == 0:
                         return TRUE if op == "Eq" else FALSE
+                    own = next(iter(v.lin.t)) if (len(v.lin.t) == 1 and v.lin.c == 0) else None
+                    if 1 < len(nz) <= 16 and not all(isinstance(bt, tuple) and bt[1] == own for bt in nz) \
+                            and all(isinstance(bt, tuple) and bt[0] in ("b", "n") for bt in nz):
+                        # (v & mask) != 0 with several provenance bits: disjunction of the bits
+                        f = None
+                        for bt in nz:
+                            g = ("bit", bt[1], bt[2]) if bt[0] == "b" else ("not", ("bit", bt[1], bt[2]))
+                            f = g if f is None else ("or", f, g)
+                        return VBool(f if op == "Ne" else ("not", f))
                     if len(nz) == 1 and nz[0] is not None and nz[0] != 1:
                         bt = nz[0]
                         f = ("bit", bt[1], bt[2]) if bt[0] == "b" else (bt[1] if bt[0] == "f" else None)
